@@ -212,3 +212,14 @@ Qed.
 Corollary consume_append_varint v rest : u64_ok v ->
   consume_varint (append_varint v ++ rest) = (v, Z.of_nat (length (append_varint v))).
 Proof. intros H. rewrite append_varint_spec by exact H. apply consume_spec_varint, H. Qed.
+
+
+(* has_len_z is the comparison with the length *)
+Lemma has_len_z_spec l : forall m, has_len_z l m = (m <=? Z.of_nat (length l)).
+Proof.
+  induction l as [|y t IH]; intros m; cbn [has_len_z length]; [reflexivity|].
+  rewrite IH. rewrite Nat2Z.inj_succ.
+  destruct (Z.leb_spec m 0); destruct (Z.leb_spec (m - 1) (Z.of_nat (length t))); destruct (Z.leb_spec m (Z.succ (Z.of_nat (length t)))); cbn [orb]; try reflexivity; lia.
+Qed.
+Lemma not_has_len_z l m : negb (has_len_z l m) = (Z.of_nat (length l) <? m).
+Proof. rewrite has_len_z_spec. destruct (Z.leb_spec m (Z.of_nat (length l))); destruct (Z.ltb_spec (Z.of_nat (length l)) m); cbn; try reflexivity; lia. Qed.
